@@ -256,6 +256,10 @@ def sorm_model_stream(res, rng, k):
         d, kinds, p1, p2, dists, R = gen_problem(rng, np, stats, dmax=4)
         if d < 2:
             continue
+        from formmodel import latent_admissible
+        if not latent_admissible(np, kinds, p2, R):
+            res.stat('sorm_model_correlation_not_admissible_for_these_marginals')
+            continue
         mean = np.array([float(ds.mean()) for ds in dists])
         sd = np.array([float(ds.std()) for ds in dists])
         shape, c0, b, Q = gen_limit_state(rng, np, d, mean, sd)
